@@ -151,7 +151,8 @@ func ParseOptions(rawData []byte) (Options, error) {
 			return nil, ErrLength
 		}
 
-		value := rawData[p : p+int(vlen)]
+		// copy: the options must not share memory with the caller's buffer
+		value := append([]byte(nil), rawData[p:p+int(vlen)]...)
 		p += int(vlen)
 
 		ops[Tag(tag)] = Option{
